@@ -317,3 +317,6 @@ func Virtual(n int) []byte {
 	}
 	return make([]byte, n)
 }
+
+// Symbolic reports whether the harness runs inside the symbolic executor (false natively).
+func Symbolic() bool { return false }
